@@ -3,14 +3,23 @@ use crate::engine::{Family, Tier, WorkerHooks};
 
 pub mod c02;
 pub mod c03;
+pub mod c07;
+pub mod c08;
 pub mod c09;
+pub mod lazy;
 
-pub const ALL: &[&str] = &["C02", "C03", "C06", "C09"];
+pub const ALL: &[&str] = &["C02", "C03", "C06", "C07", "C08", "C09", "C10", "C11", "C12", "C14"];
 
 pub fn families(prop: &str, tier: Tier, variant: &str) -> Vec<Family> {
     match prop {
         "C02" => c02::families(tier, variant, c02::Mode::AcceptReject),
         "C03" => c03::families(tier, variant, c03::Mode::Tree),
+        "C07" => c07::families(tier, variant),
+        "C08" => c08::families(tier, variant),
+        "C10" => lazy::families_c10(tier),
+        "C11" => lazy::families_c11(tier),
+        "C12" => lazy::families_c12(tier),
+        "C14" => lazy::families_c14(tier),
         "C09" => c09::families(tier, variant),
         "C06" => c03::families(tier, variant, c03::Mode::RoundTrip),
         _ => vec![],
